@@ -62,3 +62,69 @@ def skip_table():
         lean_in = "(" + ", ".join("true" if b else "false" for b in flags) + ")"
         rows.append((lean_in, '"%s"' % kind, dict(zip("interrupted pending abort_all suite_aborted stop failed is_test".split(), flags), message=message, out=kind)))
     return C.Table("skipTable", "List ((Bool × Bool × Bool × Bool × Bool × Bool × Bool) × String)", rows)
+
+
+def handle_exception_table():
+    """Decision table of the REAL `RunContext.handle_exception(excp, suite)`, obtained by executing it on an instance
+    of every exception class user code can raise — a plain exception, the three Abort* classes of the framework and a
+    project-defined SUBCLASS of each — with and without the `suite` argument.  What it did is read back through the
+    public interface: the error logs the (fake) session received and what `is_task_to_be_skipped` answers afterwards
+    for a test of that suite, a test of a sub-suite and a test of another suite."""
+    import lemoncheesecake.api as lcc
+    from lemoncheesecake.runner import RunContext, TestTask
+    from lemoncheesecake.suite.core import Suite, Test
+
+    class TestGivesUp(lcc.AbortTest):
+        pass
+
+    class SuiteUnusable(lcc.AbortSuite):
+        pass
+
+    class EnvironmentDown(lcc.AbortAllTests):
+        pass
+
+    class EM:
+        def get_pending_failure(self):
+            return None, None
+
+    class Sess:
+        def __init__(self):
+            self.event_manager = EM()
+            self.aborted = False
+            self.errors = []
+
+        def is_successful(self, location=None):
+            return True          # --stop-on-failure is off anyway
+
+        def log_error(self, msg):
+            self.errors.append(msg)
+
+    classes = [("exc", False, Exception), ("AbortTest", False, lcc.AbortTest), ("AbortSuite", False, lcc.AbortSuite),
+               ("AbortAllTests", False, lcc.AbortAllTests), ("AbortTest", True, TestGivesUp),
+               ("AbortSuite", True, SuiteUnusable), ("AbortAllTests", True, EnvironmentDown)]
+    rows = []
+    for (kind, sub, cls) in classes:
+        for with_suite in (False, True):
+            suite, other = Suite(None, "s", "s"), Suite(None, "o", "o")
+            inner = Suite(None, "sub", "sub")
+            suite.add_suite(inner)
+            t_same, t_sub, t_other = Test("t", "t", lambda: None), Test("u", "u", lambda: None), Test("v", "v", lambda: None)
+            suite.add_test(t_same)
+            inner.add_test(t_sub)
+            other.add_test(t_other)
+            sess = Sess()
+            ctx = RunContext(sess, None, False, False)
+            try:
+                raise cls("boom")
+            except Exception as e:          # handle_exception reads the implicit traceback of the handled exception
+                if with_suite:
+                    ctx.handle_exception(e, suite)
+                else:
+                    ctx.handle_exception(e)
+            skipped = [bool(ctx.is_task_to_be_skipped(TestTask(t, None))) for t in (t_same, t_sub, t_other)]
+            effect = {(False, False, False): "none", (True, False, False): "abortSuite", (True, True, True): "abortAll"}.get(
+                tuple(skipped), "other:%r" % (skipped,))
+            out = "%s+%derr" % (effect, len(sess.errors))
+            lean_in = '("%s", %s, %s)' % (kind, "true" if sub else "false", "true" if with_suite else "false")
+            rows.append((lean_in, '"%s"' % out, {"class": cls.__name__, "base": kind, "subclass": sub, "suite_given": with_suite, "out": out}))
+    return C.Table("handleExcTable", "List ((String × Bool × Bool) × String)", rows)
